@@ -482,8 +482,13 @@ def kani_verify(harnesses, tier, workdir, build=None):
         merged = {"verification_results": {"results": []}, "cbmc": []}
         rc_all, logs = 0, []
         groups = ([plain] if plain else []) + [[h] for h in special]
-        for gi, g in enumerate(groups):
-            rc, oj, lf = kani_verify(g, tier, os.path.join(workdir, f"g{gi}"), build)
+        # the invocations run concurrently: cargo serialises their (incremental, seconds-long) compile phases on
+        # the target-dir lock, the CBMC phases overlap
+        from concurrent.futures import ThreadPoolExecutor
+        with ThreadPoolExecutor(max_workers=max(1, min(JOBS, len(groups)))) as ex:
+            futs = [ex.submit(kani_verify, g, tier, os.path.join(workdir, f"g{gi}"), build) for gi, g in enumerate(groups)]
+            outs = [f.result() for f in futs]
+        for rc, oj, lf in outs:
             rc_all = rc_all or rc
             logs.append(lf)
             if os.path.exists(oj):
@@ -838,7 +843,7 @@ def main():
                             ent = kf
                             break
                 if ent:
-                    line = f"KNOWN-FINDING: property={pid} {ent['id']}: {ent['what']} [harness {h.name}, check {ident}]"
+                    line = f"KNOWN-FINDING: property={pid} {ent['id']}: {ent['what']} [harness {h.name}]"
                     if line not in known_lines:
                         known_lines.append(line)
                 else:
